@@ -759,3 +759,55 @@ package yang
 //@     invariant forall i int :: 0 <= i && i < _k ==> ids[i] != r
 //@   loop 2
 //@     invariant forall x *Identity :: idClosed(x) && (isId(x) ==> x.Values == old(x.Values))
+
+// ---------------------------------------------------------------------------
+// C05: error lists come back in an order that is a function of the errors.
+//
+// nl is the comparison of two fields of an error text: numbers by value, a
+// number before any other text, other text lexicographically. The lemmas say
+// that it is a total preorder -- the condition under which the result of
+// sorting does not depend on the order the errors were collected in.
+//@ spec nl(a string, b string) int = (isNum(a) && isNum(b)) ? (numVal(a) < numVal(b) ? -1 : (numVal(a) > numVal(b) ? 1 : 0))
+//@     : (isNum(a) ? -1 : (isNum(b) ? 1 : (a < b ? -1 : (a > b ? 1 : 0))))
+//@ func nless props C05
+//@   ensures result == nl(a, b)
+//@   modifies nothing
+//@   safe
+//@ lemma nlAntisymmetric(a string, b string) props C05
+//@   ensures nl(a, b) == -nl(b, a)
+//@ lemma nlTransitive(a string, b string, c string) props C05
+//@   requires nl(a, b) <= 0 && nl(b, c) <= 0
+//@   ensures  nl(a, c) <= 0 && (nl(a, c) == 0 ==> nl(a, b) == 0 && nl(b, c) == 0)
+//@ lemma nlReflexive(a string) props C05
+//@   ensures nl(a, a) == 0
+//
+// The order of two error texts: by file name, then field by field (line,
+// column, message) with nl, a missing field first.
+//@ spec eCount(a string) int = partCount(a, ":", 4)
+//@ spec eField(a string, i int) string = part(a, ":", 4, i)
+//@ spec lessFrom(a string, b string, i int) bool = i >= 4 ? false : (eCount(b) == i ? false : (eCount(a) == i ? true
+//@     : (nl(eField(a, i), eField(b, i)) == -1 ? true : (nl(eField(a, i), eField(b, i)) == 1 ? false : lessFrom(a, b, i + 1)))))
+//@ spec lessE(a string, b string) bool = eField(a, 0) < eField(b, 0) ? true : (eField(a, 0) > eField(b, 0) ? false : lessFrom(a, b, 1))
+//@ func (sortedErrors).Less props C05
+//@   requires 0 <= i && i < len(s) && 0 <= j && j < len(s)
+//@   ensures  result == lessE(s[i].s, s[j].s)
+//@   modifies nothing
+//@   safe
+//@   loop 1
+//@     invariant 1 <= i && i <= 4 && len(fi) == eCount(s[i0].s) && len(fj) == eCount(s[j].s) && len(fi) >= 1 && len(fj) >= 1 && len(fi) <= 4 && len(fj) <= 4
+//@     invariant forall k int :: 0 <= k && k < len(fi) ==> fi[k] == eField(s[i0].s, k)
+//@     invariant forall k int :: 0 <= k && k < len(fj) ==> fj[k] == eField(s[j].s, k)
+//@     invariant lessFrom(s[i0].s, s[j].s, i) == lessFrom(s[i0].s, s[j].s, 1)
+//@     invariant len(fi) >= i && len(fj) >= i
+//@     decreases 4 - i
+//@ lemma lessEIrreflexive(a string) props C05
+//@   ensures !lessE(a, a)
+//@   uses nlReflexive
+//@ lemma lessEAsymmetric(a string, b string) props C05
+//@   requires lessE(a, b)
+//@   ensures  !lessE(b, a)
+//@   uses nlAntisymmetric
+//@ lemma lessETransitive(a string, b string, c string) props C05
+//@   requires lessE(a, b) && lessE(b, c)
+//@   ensures  lessE(a, c)
+//@   uses nlAntisymmetric nlTransitive
